@@ -533,7 +533,7 @@ func main() {
 	case "cancel-proc":
 		cancelProcUnit(res)
 	case "clishare": // a pipeline included by several stages of the requested pipeline (alone, before and after other targets)
-		cliUnit(res, 2, []int{1, 3}, "ok", "pshseq", "pshallow", "pshlate")
+		cliUnit(res, 2, []int{1, 3}, "ok", "pshseq", "pshallow", "pshlate", "pconderr")
 	case "cli2":
 		cliUnit(res, 2, []int{1})
 	case "cli3":
@@ -1026,6 +1026,10 @@ func runCli(c cliCase) string {
   delay:
     command: "sleep 0.4; echo delay >> %[1]s.b"
 pipelines:
+  pconderr:
+    - task: ok2
+      name: only
+      condition: /no/such/condition-binary
   pin:
     - task: okin
       name: s1
@@ -1150,6 +1154,8 @@ pipelines:
 			allOK = false
 		case "pallow": // the failing stage allows failure: its dependant runs, the pipeline succeeded
 			want = append(want, "ok2", "fail", "ok")
+		case "pconderr": // the stage's condition cannot be evaluated: the stage is in error, the run is cancelled - the target did not succeed
+			allOK = false
 		case "pshseq": // one pipeline included by two stages, one after the other: its stages run once, and its failure fails the stage that does not allow it
 			want = append(want, "okin", "failin")
 			allOK = false
@@ -1255,7 +1261,7 @@ func cliUnit(res *common.Result, maxLen int, statuses []int, alphabet ...string)
 			vias := []string{"", "run"}
 			onlyTasks := true
 			for _, t := range cur {
-				if t == "pok" || t == "pfail" || t == "pallow" || t == "ppar" || strings.HasPrefix(t, "psh") {
+				if t == "pok" || t == "pfail" || t == "pallow" || t == "ppar" || strings.HasPrefix(t, "psh") || t == "pconderr" {
 					onlyTasks = false
 				}
 			}
@@ -1273,7 +1279,7 @@ func cliUnit(res *common.Result, maxLen int, statuses []int, alphabet ...string)
 					for _, s := range statuses {
 						hasFail := false
 						for _, t := range cur {
-							if t == "fail" || t == "pfail" || strings.HasPrefix(t, "psh") {
+							if t == "fail" || t == "pfail" || strings.HasPrefix(t, "psh") || t == "pconderr" {
 								hasFail = true
 							}
 						}
